@@ -366,8 +366,29 @@ fn install_sink()
 //-------------------------------------------------------------------------------------------------------------------
 // Helper systems used by ops
 
+fn read_single_sys<C: CompVal>(In(e): In<Entity>, ro: Reactive<C>)
+{
+    let (ent, _) = ro.single();
+    assert_eq!(ent, e);
+    let _ = ro.get(e);
+}
+
 fn mutate_sys<C: CompVal>(In((e, how)): In<(Entity, How)>, mut c: Commands, mut rm: ReactiveMut<C>)
 {
+    // `single*` accessors (they panic unless exactly one entity matches, so they are used only then)
+    let single = with_ctx(|x| x.cfg.single_route) && with_ctx(|x| x.single_holder) == Some(e);
+    if single
+    {
+        match how
+        {
+            How::GetMut => { let (ent, v) = rm.single_mut(&mut c); assert_eq!(ent, e); let x = v.val(); v.set(x ^ 1); }
+            How::SetIfNeq(v) => { let (ent, _) = rm.set_single_if_not_eq(&mut c, C::new(v)); assert_eq!(ent, e); }
+            How::NoReact(v) => { let (ent, x) = rm.single_noreact(); assert_eq!(ent, e); x.set(v); }
+            How::Read => { let (ent, _) = rm.single(); assert_eq!(ent, e); c.syscall(e, read_single_sys::<C>); }
+            How::Trigger => {}
+        }
+        return;
+    }
     match how
     {
         How::GetMut =>
@@ -378,6 +399,18 @@ fn mutate_sys<C: CompVal>(In((e, how)): In<(Entity, How)>, mut c: Commands, mut 
         How::NoReact(v) => { if let Ok(x) = rm.get_noreact(e) { x.set(v); } }
         How::Read => { let _ = rm.get(e); }
         How::Trigger => {}
+    }
+}
+
+/// `World`-level resource API (there is no reacting mutable access at world level).
+fn res_mutate_world(w: &mut World, how: How)
+{
+    match how
+    {
+        How::NoReact(v) => { w.react_resource_mut_noreact::<RA>().0 = v; }
+        How::Read => { let _ = w.react_resource::<RA>().0; let _ = w.get_react_resource::<RA>(); let _ = w.contains_react_resource::<RA>(); }
+        How::Trigger => { w.trigger_resource_mutation::<RA>(); }
+        _ => { w.syscall(how, res_mutate_sys); }
     }
 }
 
@@ -418,6 +451,7 @@ pub fn issue_op(c: &mut Commands, op: Op, cmd: CmdId, top: bool, rm: Option<&mut
     // body-time accessors need the issuing system's own ReactiveMut; without one they degrade to apply-time access
     let op = match (op, rm.is_some()) { (Op::MutateNow(e, how), false) => Op::Mutate(Comp::A, e, how), (o, _) => o };
     let mut issued = Issued{ op, payload: None, new_actor: None, token: None, issue_ok: true, value: None };
+    let world_route = with_ctx(|x| x.cfg.world_route);
 
     // allocate ids first so that the record precedes every effect
     match op
@@ -445,7 +479,8 @@ pub fn issue_op(c: &mut Commands, op: Op, cmd: CmdId, top: bool, rm: Option<&mut
             record(issued);
             c.queue(marker(cmd));
             let e = with_ctx(|x| x.actors[a as usize].entity);
-            c.queue(SystemCommand(e));
+            if world_route { c.queue(move |w: &mut World| SystemCommand(e).apply(w)); }
+            else { c.queue(SystemCommand(e)); }
         }
         Op::SysEvent(a) =>
         {
@@ -453,17 +488,20 @@ pub fn issue_op(c: &mut Commands, op: Op, cmd: CmdId, top: bool, rm: Option<&mut
             record(issued);
             c.queue(marker(cmd));
             let e = with_ctx(|x| x.actors[a as usize].entity);
-            c.send_system_event(SystemCommand(e), Pl(p));
+            if world_route { let pl = Pl(p); c.queue(move |w: &mut World| w.send_system_event(SystemCommand(e), pl)); }
+            else { c.send_system_event(SystemCommand(e), Pl(p)); }
         }
         Op::Broadcast(ev) =>
         {
             let p = issued.payload.unwrap();
             record(issued);
             c.queue(marker(cmd));
-            match ev
+            match (ev, world_route)
             {
-                Ev::A => c.react().broadcast(EvA(Pl(p))),
-                Ev::B => c.react().broadcast(EvB(Pl(p))),
+                (Ev::A, false) => c.react().broadcast(EvA(Pl(p))),
+                (Ev::B, false) => c.react().broadcast(EvB(Pl(p))),
+                (Ev::A, true) => { let pl = EvA(Pl(p)); c.queue(move |w: &mut World| w.broadcast(pl)); }
+                (Ev::B, true) => { let pl = EvB(Pl(p)); c.queue(move |w: &mut World| w.broadcast(pl)); }
             }
         }
         Op::EntityEvent(ev, e) =>
@@ -472,22 +510,27 @@ pub fn issue_op(c: &mut Commands, op: Op, cmd: CmdId, top: bool, rm: Option<&mut
             record(issued);
             c.queue(marker(cmd));
             let e = with_ctx(|x| x.ents[e as usize]);
-            match ev
+            match (ev, world_route)
             {
-                Ev::A => c.react().entity_event(e, EvA(Pl(p))),
-                Ev::B => c.react().entity_event(e, EvB(Pl(p))),
+                (Ev::A, false) => c.react().entity_event(e, EvA(Pl(p))),
+                (Ev::B, false) => c.react().entity_event(e, EvB(Pl(p))),
+                (Ev::A, true) => { let pl = EvA(Pl(p)); c.queue(move |w: &mut World| w.entity_event(e, pl)); }
+                (Ev::B, true) => { let pl = EvB(Pl(p)); c.queue(move |w: &mut World| w.entity_event(e, pl)); }
             }
         }
         Op::Insert(k, e, v) =>
         {
             let e = with_ctx(|x| x.ents[e as usize]);
-            issued.issue_ok = c.get_entity(e).is_some();
+            // through `World::react` the existence check happens when the closure runs, not when it is queued
+            issued.issue_ok = world_route || c.get_entity(e).is_some();
             record(issued);
             c.queue(marker(cmd));
-            match k
+            match (k, world_route)
             {
-                Comp::A => c.react().insert(e, CA(v)),
-                Comp::B => c.react().insert(e, CB(v)),
+                (Comp::A, false) => c.react().insert(e, CA(v)),
+                (Comp::B, false) => c.react().insert(e, CB(v)),
+                (Comp::A, true) => c.queue(move |w: &mut World| { w.react(|rc| rc.insert(e, CA(v))); }),
+                (Comp::B, true) => c.queue(move |w: &mut World| { w.react(|rc| rc.insert(e, CB(v))); }),
             }
         }
         Op::Mutate(k, e, how) =>
@@ -505,6 +548,13 @@ pub fn issue_op(c: &mut Commands, op: Op, cmd: CmdId, top: bool, rm: Option<&mut
                     }
                     return;
                 }
+                // the only entity carrying the component, if there is exactly one (for the `single*` accessors)
+                let holder = match k
+                {
+                    Comp::A => { let mut q = w.query_filtered::<Entity, With<React<CA>>>(); let v: Vec<Entity> = q.iter(w).collect(); if v.len() == 1 { Some(v[0]) } else { None } }
+                    Comp::B => { let mut q = w.query_filtered::<Entity, With<React<CB>>>(); let v: Vec<Entity> = q.iter(w).collect(); if v.len() == 1 { Some(v[0]) } else { None } }
+                };
+                with_ctx(|x| x.single_holder = holder);
                 match k
                 {
                     Comp::A => w.syscall((e, how), mutate_sys::<CA>),
@@ -540,7 +590,8 @@ pub fn issue_op(c: &mut Commands, op: Op, cmd: CmdId, top: bool, rm: Option<&mut
         {
             record(issued);
             c.queue(marker(cmd));
-            c.queue(move |w: &mut World| { w.syscall(how, res_mutate_sys); });
+            if world_route { c.queue(move |w: &mut World| res_mutate_world(w, how)); }
+            else { c.queue(move |w: &mut World| { w.syscall(how, res_mutate_sys); }); }
         }
         Op::RemoveComp(k, e) =>
         {
